@@ -35,10 +35,53 @@ def garcs(G):
 
 
 def gcase(k, G):
+    if getattr(G, 'desc', None):
+        return {'k': k, 'big': list(G.desc)}
     return {'k': k, 'G': G} if len(G) <= 16 else {'k': k, 'arcs': garcs(G)}
 
 
+class BigG(list):
+    """A graph of a large order, named by the rule that builds it (replay files carry the rule)."""
+
+
+_BIGS = {}
+
+
+def big_graph(k, maxrun, lo, hi):
+    """Order-k graph (k = 7..10) built here, not by the library: vertices are the k-mers with no
+    homopolymer run longer than maxrun and lo <= #GC <= hi, trimmed until every vertex keeps a
+    successor (greatest fixed point), arcs shift-append.  Vertex numbers pass 2^15 and 2^16 from
+    order 8 / 9 on."""
+    import numpy as np
+    key = (k, maxrun, lo, hi)
+    if key in _BIGS:
+        return _BIGS[key]
+    n = 4 ** k
+    v = np.arange(n, dtype=np.int64)
+    digs = (v[:, None] // (4 ** np.arange(k - 1, -1, -1, dtype=np.int64))[None, :]) % 4
+    gc = ((digs == 1) | (digs == 2)).sum(1)
+    run = np.ones(n, dtype=np.int64)
+    best = np.ones(n, dtype=np.int64)
+    for i in range(1, k):
+        run = np.where(digs[:, i] == digs[:, i - 1], run + 1, 1)
+        best = np.maximum(best, run)
+    valid = (gc >= lo) & (gc <= hi) & (best <= maxrun)
+    succ = ((v * 4) % n)[:, None] + np.arange(4, dtype=np.int64)[None, :]
+    while True:
+        ok = valid[succ] & valid[:, None]
+        nv = valid & (ok.sum(1) >= 1)
+        if (nv == valid).all():
+            break
+        valid = nv
+    G = BigG(np.where(ok, succ, -1).tolist())
+    G.desc = [k, maxrun, lo, hi]
+    _BIGS[key] = G
+    return G
+
+
 def graph_of(case):
+    if case.get('big'):
+        return big_graph(*case['big'])
     if case.get('G') is not None:
         return case['G']
     G = [[-1] * 4 for _ in range(4 ** case['k'])]
